@@ -97,19 +97,30 @@ structure Ext (p q : Proj) : Prop where
   unitIdx : q.unitIdx = p.unitIdx
   nFields : p.nFields ≤ q.nFields
   grp : ∀ pos, isGroupAt q.top pos ↔ isGroupAt p.top pos
+  /-- every flattened field of `q` is a field of `p`, or was created since: then its index is
+  beyond the old index space and its observation-order map starts as the `.config` closure
+  initialises it -/
+  flatNew : ∀ f ∈ q.flat, f ∈ p.flat ∨
+    (p.nFields ≤ f.idx ∧ (f.order = .first → f.ranks = if p.nodes.isEmpty then [] else [([], 0)]))
 
-theorem Ext.refl (p : Proj) : Ext p p := ⟨rfl, rfl, rfl, Nat.le_refl _, fun _ => Iff.rfl⟩
+theorem Ext.refl (p : Proj) : Ext p p :=
+  ⟨rfl, rfl, rfl, Nat.le_refl _, fun _ => Iff.rfl, fun _ hf => Or.inl hf⟩
 
 theorem Ext.trans {p q r : Proj} (h1 : Ext p q) (h2 : Ext q r) : Ext p r :=
   ⟨h2.nodes.trans h1.nodes, h2.parts.trans h1.parts, h2.unitIdx.trans h1.unitIdx,
-   Nat.le_trans h1.nFields h2.nFields, fun pos => (h2.grp pos).trans (h1.grp pos)⟩
+   Nat.le_trans h1.nFields h2.nFields, fun pos => (h2.grp pos).trans (h1.grp pos),
+   fun f hf => by
+     rcases h2.flatNew f hf with hq | ⟨hq1, hq2⟩
+     · exact h1.flatNew f hq
+     · refine Or.inr ⟨Nat.le_trans h1.nFields hq1, ?_⟩
+       rw [← h1.nodes]; exact hq2⟩
 
 theorem setRow_FInv (p : Proj) (i : Nat) (v : Bytes) (h : FInv p) :
     FInv { p with row := p.row.set i v } :=
   ⟨by simpa using h.rowLen, h.cover, h.bound, h.groups⟩
 
 theorem setRow_Ext (p : Proj) (i : Nat) (v : Bytes) : Ext p { p with row := p.row.set i v } :=
-  ⟨rfl, rfl, rfl, Nat.le_refl _, fun _ => Iff.rfl⟩
+  ⟨rfl, rfl, rfl, Nat.le_refl _, fun _ => Iff.rfl, fun _ hf => Or.inl hf⟩
 
 theorem addSubField_FInv (p : Proj) (pos : Nat) (name : Bytes) (o : Order) (h : FInv p)
     (hg : isGroupAt p.top pos) : FInv (p.addSubField pos name o).1 := by
@@ -134,9 +145,22 @@ theorem addSubField_FInv (p : Proj) (pos : Nat) (name : Bytes) (o : Order) (h : 
   · intro q o' hq
     exact (isGroupAt_addSubAt _ _ _ _).mpr (h.groups q o' hq)
 
-theorem addSubField_Ext (p : Proj) (pos : Nat) (name : Bytes) (o : Order) :
+theorem addSubField_Ext (p : Proj) (pos : Nat) (name : Bytes) (o : Order) (hg : isGroupAt p.top pos) :
     Ext p (p.addSubField pos name o).1 :=
-  ⟨rfl, rfl, rfl, by simp [Proj.addSubField], fun q => isGroupAt_addSubAt _ _ _ q⟩
+  ⟨rfl, rfl, rfl, by simp [Proj.addSubField], fun q => isGroupAt_addSubAt _ _ _ q,
+   fun f hf => by
+     simp only [Proj.addSubField, Proj.flat] at hf
+     rcases (mem_flat_addSubAt _ _ _ hg f).mp hf with hf | rfl
+     · exact Or.inl hf
+     · refine Or.inr ⟨?_, ?_⟩
+       · unfold mkSubField mkField; cases o <;> simp
+       · intro ho
+         unfold mkSubField mkField at ho ⊢
+         cases o with
+         | first => cases p.nodes.isEmpty <;> simp
+         | alpha => simp at ho
+         | num => simp at ho
+         | fixed l => simp at ho⟩
 
 theorem configStep_good (env : Env) (pos : Nat) (o : Order) (p : Proj) (cfg : Bytes × Bytes × Bool)
     (h : FInv p) (hg : isGroupAt p.top pos) :
@@ -149,7 +173,7 @@ theorem configStep_good (env : Env) (pos : Nat) (o : Order) (p : Proj) (cfg : By
     · split
       · exact ⟨h, Ext.refl p⟩
       · exact ⟨setRow_FInv _ _ _ (addSubField_FInv p pos _ o h hg),
-          (addSubField_Ext p pos _ o).trans (setRow_Ext _ _ _)⟩
+          (addSubField_Ext p pos _ o hg).trans (setRow_Ext _ _ _)⟩
 
 theorem configFold_good (env : Env) (pos : Nat) (o : Order) (cfgs : List (Bytes × Bytes × Bool)) (p : Proj)
     (h : FInv p) (hg : isGroupAt p.top pos) :
@@ -184,7 +208,7 @@ theorem populateRow_good (env : Env) (p : Proj) (r : Res) (h : FInv p) :
   have h0 : FInv { p with row := p.row.map fun _ => [] } :=
     ⟨by simpa using h.rowLen, h.cover, h.bound, h.groups⟩
   have e0 : Ext p { p with row := p.row.map fun _ => [] } :=
-    ⟨rfl, rfl, rfl, Nat.le_refl _, fun _ => Iff.rfl⟩
+    ⟨rfl, rfl, rfl, Nat.le_refl _, fun _ => Iff.rfl, fun _ hf => Or.inl hf⟩
   obtain ⟨h1, e1⟩ := partsFold_good env r p.parts _ h0 (fun x hx => hx)
   exact ⟨h1, e0.trans e1⟩
 
@@ -456,7 +480,7 @@ theorem residue_step (st : Parser × Proj) (sp : Spec) (hf : FInv st.2) (hn : st
       exact ⟨h1, by simp [h2, hn]⟩
     | error e => exact ⟨hf, hn⟩
 
-theorem residue_inv (h : List Bytes → UInt64) (pa : Parser) : Inv h (pa.residue).2 := by
+theorem residue_FInv_nodes (pa : Parser) : FInv (pa.residue).2 ∧ (pa.residue).2.nodes = [] := by
   unfold Parser.residue
   have h0 : FInv (pa, newProjection).2 ∧ (pa, newProjection).2.nodes = [] := ⟨newProjection_FInv, rfl⟩
   have h1 : ∀ st : Parser × Proj, FInv st.2 ∧ st.2.nodes = [] → ∀ (b : Bool) (sp : Spec),
@@ -467,7 +491,10 @@ theorem residue_inv (h : List Bytes → UInt64) (pa : Parser) : Inv h (pa.residu
     · simpa using residue_step st sp hst.1 hst.2
   have h2 := h1 _ h0 (!pa.haveConfig) { key := dotConfig, order := .first }
   have h3 := h1 _ h2 (!(if (!pa.haveConfig) = true then residueStep (pa, newProjection) { key := dotConfig, order := .first } else (pa, newProjection)).1.haveFullname) { key := dotFullname, order := .first }
-  exact Inv_of_FInv_nil h _ h3.1 h3.2
+  exact h3
+
+theorem residue_inv (h : List Bytes → UInt64) (pa : Parser) : Inv h (pa.residue).2 :=
+  Inv_of_FInv_nil h _ (residue_FInv_nodes pa).1 (residue_FInv_nodes pa).2
 
 /-- The states a Projection can be in: produced by `Parse`, `ParseWithUnit` or `Residue` of any
 parser state, then any sequence of `Project` / `ProjectValues` calls, each under any state of
